@@ -1176,6 +1176,10 @@ def stackTraceText (vm : Vm) : List UInt8 :=
 def errorEpilogue (vm : Vm) : Vm :=
   if vm.running == 3 then { vm with out := vm.out ++ (vmPrintText vm "VM_ERROR" ++ stackTraceText vm).toArray } else vm
 
+/-- what `vm_execute` does after the loop when the run ended in VM_HALT: the result object is copied out and
+(since the `fix:` commit 2088ed3) its slot is popped; returns the address of the result object -/
+def haltEpilogue (vm : Vm) : Vm := if vm.running == 0 then { vm with sp := vm.sp - 1 } else vm
+
 /-- `nev_execute` entry logic: first call starts at 0, later ones at the entry stub -/
 def beginExecute (md : Module) (vm : Vm) : Vm :=
   if vm.initialized then { vm with ip := md.codeEntry, running := 1 }
